@@ -145,6 +145,13 @@ pub mod memmap2 {
     pub struct MmapMut { m: u8 }
     pub struct MmapV { pub path: PathV, pub len: nat }
     impl View for MmapMut { type V = MmapV; uninterp spec fn view(&self) -> MmapV; }
+    /// reading through the mapping (`&m[a..b]`): the bytes are those of the mapped file, which
+    /// live in the ghost world; without a world argument nothing but the length is known here
+    impl ::std::ops::Deref for MmapMut {
+        type Target = [u8];
+        #[verifier::external_body]
+        fn deref(&self) -> (r: &[u8]) ensures r@.len() == self@.len { unimplemented!() }
+    }
     impl MmapMut {
         #[verifier::external_body]
         pub fn len(&self) -> (r: usize) ensures r == self@.len { unimplemented!() }
